@@ -308,20 +308,29 @@ func checkObjectLiteral(p *Prog, l *Ledger) {
 	}
 	var appendKeys *ssa.Call
 	var mapStore *ssa.MapUpdate
-	instrsOf(fn, func(in ssa.Instruction) {
-		if c, ok := in.(*ssa.Call); ok {
-			if b, ok := c.Call.Value.(*ssa.Builtin); ok && b.Name() == "append" {
-				if st, ok := c.Type().Underlying().(*types.Slice); ok {
-					if bt, ok := st.Elem().Underlying().(*types.Basic); ok && bt.Kind() == types.String {
-						appendKeys = c
+	// the literal's parser and the helpers only it uses (a phase function, a small collecting type's methods)
+	scope := []*ssa.Function{fn}
+	for _, f := range p.ModuleFuncs() {
+		if f != fn && fnPkgName(f) == "parser" && p.OwnedBy(f, p.FuncKey(fn)) {
+			scope = append(scope, f)
+		}
+	}
+	for _, f := range scope {
+		instrsOf(f, func(in ssa.Instruction) {
+			if c, ok := in.(*ssa.Call); ok {
+				if b, ok := c.Call.Value.(*ssa.Builtin); ok && b.Name() == "append" {
+					if st, ok := c.Type().Underlying().(*types.Slice); ok {
+						if bt, ok := st.Elem().Underlying().(*types.Basic); ok && bt.Kind() == types.String {
+							appendKeys = c
+						}
 					}
 				}
 			}
-		}
-		if mu, ok := in.(*ssa.MapUpdate); ok {
-			mapStore = mu
-		}
-	})
+			if mu, ok := in.(*ssa.MapUpdate); ok {
+				mapStore = mu
+			}
+		})
+	}
 	if appendKeys == nil || mapStore == nil {
 		l.Violate(rule, "parser.objectLiteral#names", p.Pos(fn.Pos()), "the parser does not record the literal's property names and initialisers as expected (name list append / map store not found)")
 		return
@@ -337,7 +346,7 @@ func checkObjectLiteral(p *Prog, l *Ledger) {
 		if !ok || !lk.CommaOk {
 			continue
 		}
-		if lk.X == mapStore.Map && !g.Truth && sameKeyValue(lk.Index, mapStore.Key) {
+		if (lk.X == mapStore.Map || (describe(lk.X) == describe(mapStore.Map) && lk.Parent() == mapStore.Parent())) && !g.Truth && sameKeyValue(lk.Index, mapStore.Key) {
 			guarded = true
 		}
 	}
